@@ -13,7 +13,7 @@ import sympy as sp
 
 from ..groups import group_model, runs_with_policy
 from ..model import component_model
-from ..symx import CAT, SymX, equal
+from ..symx import CAT, SymX, equal, refute_constant
 from .c17 import _short
 from .common import sig_txt
 
@@ -108,7 +108,7 @@ def d1(chk, repo):
                 res = equal(M0, sp.eye(3), t)
                 if res is True:
                     chk.ok("D1", key, c.where, "section rotation matrix = identity at zero twist", algebraic=True)
-                elif res is False or any(s.name.startswith("opq:") for s in M0.free_symbols):
+                elif res is False or any(refute_constant(M0[i, j], 1 if i == j else 0) for i in range(3) for j in range(3)):
                     chk.violation("D1", key, c.where, "at zero twist the section rotation matrix is %s, not the identity: non-flat sections (camber, built-in twist) are rotated by default" % _short(M0.tolist()), algebraic=True)
                 else:
                     chk.undecided("D1", key, c.where, "matrix at zero twist: %s" % _short(M0.tolist()), algebraic=True)
@@ -242,8 +242,16 @@ def d4(chk, repo):
             chk.undecided("D4", key, c.where, "interpolation set-up not found")
             continue
         span = nv.get(id(asg["span"].value))
-        xs = [s for n, s in t.syms.items() if n.startswith("opq:x@") and n.endswith("[-1]")]
-        x0 = [s for n, s in t.syms.items() if n.startswith("opq:x@") and n.endswith("[0]")]
+        xe = nv.get(id(asg["x"].value)) if "x" in asg else None
+        if isinstance(xe, sp.Symbol):
+            xs = [s for n, s in t.syms.items() if n == xe.name + "[-1]"]
+            x0 = [s for n, s in t.syms.items() if n == xe.name + "[0]"]
+        elif xe is not None:
+            from ..symx import SUB
+
+            xs, x0 = [SUB(xe, sp.Symbol("-1"))], [SUB(xe, sp.Symbol("0"))]
+        else:
+            xs, x0 = [], []
 
         def elems(node):
             v = node.value
